@@ -407,46 +407,75 @@ def diff_states(a, b):
 
 
 def _maxdiff(x, y):
-    """largest relative difference between two canonical values, None when they are not comparable numerically"""
-    def floats(v, out):
-        if isinstance(v, str) and v.startswith('f:'):
-            out.append(float.fromhex(v[2:]))
-        elif isinstance(v, dict):
-            if 'v' in v and isinstance(v['v'], list):
-                for t in v['v']:
-                    if isinstance(t, str):
-                        out.append(float.fromhex(t) if not t.startswith('f:') else float.fromhex(t[2:]))
-                    elif isinstance(t, (int, float)) and not isinstance(t, bool):
-                        out.append(float(t))
-                    else:
-                        return False
-            elif 'data' in v and 'indptr' in v:
-                if not floats({'v': v['data']}, out):
-                    return False
-                out.extend(float(t) for t in v['indptr'] + v['indices'])
-            else:
-                for k in sorted(v):
-                    if not floats(v[k], out):
-                        return False
-        elif isinstance(v, list):
-            for t in v:
-                if not floats(t, out):
-                    return False
-        elif isinstance(v, bool) or v is None or isinstance(v, str):
-            out.append(hash(str(v)) % 1000003)
-        elif isinstance(v, (int, float)):
-            out.append(float(v))
-        return True
-    fa, fb = [], []
-    if not floats(x, fa) or not floats(y, fb) or len(fa) != len(fb):
+    """Largest relative difference |p-q|/(1+|p|) over the *float* leaves of two canonical values of the same shape
+    (integer arrays, indices, strings are discrete and ignored); None when the shapes differ."""
+    worst = [0.0]
+
+    def fl(t):
+        if isinstance(t, str):
+            return float.fromhex(t[2:] if t.startswith('f:') else t)
         return None
-    m = 0.0
-    for p, q in zip(fa, fb):
-        if p != q:
-            if p != p and q != q:
-                continue
-            m = max(m, abs(p - q) / (1 + abs(p)))
-    return m
+
+    def walk(a, b):
+        if isinstance(a, dict) and isinstance(b, dict):
+            if 'nd' in a and 'nd' in b:
+                if a.get('shape') != b.get('shape'):
+                    return False
+                if str(a['nd']).startswith('float'):
+                    for p, q in zip(a['v'], b['v']):
+                        fp, fq = fl(p), fl(q)
+                        if fp is None or fq is None:
+                            continue
+                        if fp != fq and not (fp != fp and fq != fq):
+                            worst[0] = max(worst[0], abs(fp - fq) / (1 + abs(fp)))
+                return True
+            if 'sp' in a and 'sp' in b:
+                if a.get('shape') != b.get('shape') or a.get('indptr') != b.get('indptr') or a.get('indices') != b.get('indices'):
+                    return True     # a different sparsity pattern is a discrete difference: ignored here
+                for p, q in zip(a['data'], b['data']):
+                    fp, fq = fl(p), fl(q)
+                    if fp is not None and fq is not None and fp != fq:
+                        worst[0] = max(worst[0], abs(fp - fq) / (1 + abs(fp)))
+                return True
+            for k in set(a) & set(b):
+                if not walk(a[k], b[k]):
+                    return False
+            return True
+        if isinstance(a, list) and isinstance(b, list):
+            if len(a) != len(b):
+                return False
+            for p, q in zip(a, b):
+                if not walk(p, q):
+                    return False
+            return True
+        if isinstance(a, str) and isinstance(b, str) and a.startswith('f:') and b.startswith('f:'):
+            fp, fq = fl(a), fl(b)
+            if fp != fq:
+                worst[0] = max(worst[0], abs(fp - fq) / (1 + abs(fp)))
+        return True
+    return worst[0] if walk(x, y) else None
+
+
+SVDS_FAMILY = {'SVD', 'GSVD', 'PCA', 'HITS', 'LanczosSVD'}
+ROUNDOFF = 1e-9
+
+
+def uses_svds(job):
+    """Does the job run scipy's svds (directly or through a parameter object)?"""
+    if job.get('cls') in SVDS_FAMILY:
+        return True
+    return any(isinstance(v, dict) and v.get('__est__') in SVDS_FAMILY for v in (job.get('params') or {}).values())
+
+
+def arpack_restart_pattern(job, a, b):
+    """The signature of scipy's unseeded ARPACK restarts inside svds: a repeated / vanishing singular value, or
+    differences of the order of the rounding error in every continuous output (discrete outputs may then flip)."""
+    if not uses_svds(job) or a.get('state') is None or b.get('state') is None:
+        return False
+    if degenerate_spectrum(a, b):
+        return True
+    m = _maxdiff(a['state'], b['state'])
+    return m is not None and m <= ROUNDOFF
 
 
 def _spectra(v, out):
@@ -488,8 +517,8 @@ def classify_refit(job, refit, fresh):
     if stale and len(stale) == len(d):
         return 'stale:' + ','.join(stale), {'kind': 'stale', 'attrs': _families(stale)}, d
     extra = {'kind': 'refit-differs'}
-    if degenerate_spectrum(refit, fresh):
-        extra['degenerate_spectrum'] = True
+    if arpack_restart_pattern(job, refit, fresh):
+        extra['svds_restart'] = True
     p = current_params(job)
     if 'shuffle_nodes' in p:
         extra['shuffle_nodes'] = bool(p['shuffle_nodes'])
@@ -541,8 +570,8 @@ def est_cases(ctx, job, static_names):
     d2 = diff_states(again, fresh)
     obs2 = 'equal' if not d2 else 'differs:' + ','.join(d2)
     sig2 = dict(base_sig, kind='rerun-differs') if d2 else dict(base_sig, kind='rerun')
-    if d2 and degenerate_spectrum(again, fresh):
-        sig2['degenerate_spectrum'] = True
+    if d2 and arpack_restart_pattern(job, again, fresh):
+        sig2['svds_restart'] = True
     if name in static_names:
         cases.append(Case(('rerun', key[1]), sig2, None, obs2, 'c16.spec_history %s %s' % (name, obs2), fresh['outcome'] == 'ok',
                           dict(desc, check='fresh-vs-fresh', differs=d2)))
